@@ -9,5 +9,8 @@ NTr    == Len(Traces)
 RegInit == TLCSet(1, 0) /\ TLCSet(2, 0)
 Accept == TLCSet(1, TLCGet(1) + 1) /\ TLCSet(2, TLCGet(2) + 1)
 Reject(id, l, clause) == PrintT(<<"REJECT", id, l, clause>>) /\ TLCSet(2, TLCGet(2) + 1)
+\* a rejection that does not end the trace: the trace spec carries a flag and calls EndRejected at the end
+RejectCont(id, l, clause) == PrintT(<<"REJECT", id, l, clause>>)
+EndRejected == TLCSet(2, TLCGet(2) + 1)
 AllAccepted == PrintT(<<"ACCEPTED", TLCGet(1), TLCGet(2)>>) /\ TLCGet(1) = NTr
 =============================================================================
